@@ -6,6 +6,7 @@ import FunModel.Drv.C18
 import FunModel.Drv.C02
 import FunModel.Drv.C14
 import FunModel.Drv.C05
+import FunModel.Drv.C06
 
 /-! Line-protocol driver: `driver <property>` reads one S-expression per line on stdin and prints
     the model's observation for it on one line. Core Lean only (no Mathlib) so it links. -/
@@ -19,8 +20,9 @@ def handlerFor : String → Option (Sexp → String)
   | "C02" => some DrvC02.handle
   | "C14" => some DrvC14.handle
   | "C05" => some DrvC05.handle
-  | "C07" => some DrvC05.handle
-  | "C20" => some DrvC05.handle
+  | "C06" => some DrvC06.handle
+  | "C07" => some DrvC06.handleBoth
+  | "C20" => some DrvC06.handleBoth
   | "C17" => some DrvC16.handle
   | _ => none
 
